@@ -18,7 +18,7 @@ func main() {
 	if err := refbls.SelfTest(); err != nil {
 		run.Fatal("%v", err)
 	}
-	run.Budget(4*time.Minute, 25*time.Minute)
+	run.Budget(5*time.Minute, 70*time.Minute)
 	if run.Replay != "" {
 		dkgcheck.ReplayFile(run, "C08")
 		return
